@@ -327,7 +327,13 @@ func runTunnel(tn tunnel) (res result) {
 	defer closeFront()
 
 	// ---- client script
-	c, err := net.Dial("tcp", frontAddr)
+	// the client comes from another loopback address so that client and
+	// server address are distinguishable in the PROXY line
+	d := net.Dialer{LocalAddr: &net.TCPAddr{IP: net.IPv4(127, 0, 0, byte(2+len(tn.client)%5))}, Timeout: 5 * time.Second}
+	c, err := d.Dial("tcp", frontAddr)
+	if err != nil {
+		c, err = net.Dial("tcp", frontAddr)
+	}
 	if err != nil {
 		fail("client dial: %v", err)
 		return
